@@ -54,10 +54,22 @@ type RunCtx struct {
 	// ProcTimeout bounds one simulated process.
 	ProcTimeout time.Duration
 	GoMaxProcs  int
+	// Trace collects, per simulated process, a digest of its event log and of every
+	// operation result (with the run's scratch path removed): the determinism self-test compares these.
+	Trace []string
 }
 
 func (c *RunCtx) Run(p *Proc) (*ProcResult, error) {
-	return c.Env.RunProc(p, c.Dir, c.ProcTimeout, c.Stats, c.GoMaxProcs)
+	res, err := c.Env.RunProc(p, c.Dir, c.ProcTimeout, c.Stats, c.GoMaxProcs)
+	if err == nil && res != nil {
+		h := sha256.New()
+		for _, r := range res.Records {
+			fmt.Fprintf(h, "%d|%s|%v|%s|", r.I, r.Op, r.OK, strings.ReplaceAll(r.Panic, c.Dir, "$W"))
+			h.Write([]byte(strings.ReplaceAll(string(r.Result), c.Dir, "$W")))
+		}
+		c.Trace = append(c.Trace, fmt.Sprintf("events=%d perm=%d evhash=%s ended=%q results=%s", res.Events, res.NonCanon, res.EventHash, res.Ended, hex.EncodeToString(h.Sum(nil)[:8])))
+	}
+	return res, err
 }
 
 // Property is one claimed property: a workload/history/schedule generator and an oracle.
@@ -456,6 +468,87 @@ func neverIterated(sites []string, per map[string]int64) []string {
 		}
 	}
 	return out
+}
+
+// Determinism runs scenarios of a property several times each, at several GOMAXPROCS settings and
+// concurrently, and compares the traces (event-log hashes and result digests of every simulated process).
+func Determinism(env *Env, prop Property, tier string, verifSeed uint64, scenarios, repeats, workers int) (int, error) {
+	type job struct {
+		i    int
+		data json.RawMessage
+	}
+	var mu sync.Mutex
+	traces := map[int][]string{}
+	var firstErr error
+	jobs := make(chan [2]int, scenarios*repeats)
+	datas := make([]json.RawMessage, scenarios)
+	for i := 0; i < scenarios; i++ {
+		t := tape.New(tape.Derive(verifSeed, uint64(i)))
+		b, err := json.Marshal(prop.Generate(t, tier))
+		if err != nil {
+			return 2, Harness("marshal: %v", err)
+		}
+		datas[i] = b
+		// generation itself must be a pure function of the seed
+		t2 := tape.New(tape.Derive(verifSeed, uint64(i)))
+		b2, _ := json.Marshal(prop.Generate(t2, tier))
+		if string(b) != string(b2) {
+			return 1, fmt.Errorf("scenario %d: generation is not a function of the seed", i)
+		}
+		for r := 0; r < repeats; r++ {
+			jobs <- [2]int{i, r}
+		}
+	}
+	close(jobs)
+	var wg sync.WaitGroup
+	for w := 0; w < workers; w++ {
+		wg.Add(1)
+		go func() {
+			defer wg.Done()
+			for j := range jobs {
+				i, r := j[0], j[1]
+				gmp := []int{1, 4, 16}[r%3]
+				dir, err := os.MkdirTemp(env.Scratch, "d-")
+				if err != nil {
+					mu.Lock()
+					firstErr = err
+					mu.Unlock()
+					return
+				}
+				ctx := &RunCtx{Env: env, Dir: dir, Stats: nil, Tier: tier, ProcTimeout: 60 * time.Second, GoMaxProcs: gmp}
+				out, err := prop.Run(ctx, datas[i])
+				os.RemoveAll(dir)
+				mu.Lock()
+				if err != nil && firstErr == nil {
+					firstErr = err
+				}
+				if err == nil {
+					tr := strings.Join(ctx.Trace, "\n") + "\nviolations=" + strings.Join(classesOf(out), ",")
+					traces[i] = append(traces[i], tr)
+				}
+				mu.Unlock()
+			}
+		}()
+	}
+	wg.Wait()
+	if firstErr != nil {
+		return 2, firstErr
+	}
+	bad := 0
+	for i := 0; i < scenarios; i++ {
+		for _, tr := range traces[i][1:] {
+			if tr != traces[i][0] {
+				bad++
+				fmt.Printf("NONDETERMINISM property=%s scenario=%d\n--- run A\n%s\n--- run B\n%s\n", prop.ID(), i, traces[i][0], tr)
+				break
+			}
+		}
+	}
+	fmt.Printf("determinism %s: %d scenarios x %d executions (GOMAXPROCS 1/4/16, %d concurrent workers): %d divergent\n", prop.ID(), scenarios, repeats, workers, bad)
+	if bad > 0 {
+		return 1, nil
+	}
+	return 0, nil
 }
 
 // Replay re-executes a replay file with no PRNG and reports its violations.
